@@ -2737,6 +2737,222 @@ Proof.
       { unfold Inv. split; [exact N|]. split; [exact C1|]. split; [exact PD|]. split; [exact Dv|]. split; [auto|].
         rewrite Ecs0. rewrite <- Ecs0. split; [exact T1|exact TD]. }
       split; [exact I1|]. destruct (Z.gtb_spec t (cap_of cs)); [lia|].
-      split; [reflexivity|]. split; [reflexivity|]. split; [reflexivity|]. split; [reflexivity|].
+      split; [reflexivity|]. split; [reflexivity|]. split; [exact L|]. split; [reflexivity|].
       intros x v Hx E. rewrite A1 by auto. assert (Emb : m = bb) by (unfold m, bb in *; lia). rewrite Emb. exact E.
+Qed.
+
+(* ------------------------------------------------------------------ refinement of the plain byte array *)
+Definition refines (I : ideal) (s : st) : Prop :=
+  exists cs, Inv (s_h s) (s_d s) cs /\ h_ty (s_h s) = i_ty I /\ h_dims (s_h s) = i_dims I /\
+    lenZ cs = i_n I /\ cap_of cs = i_cap I /\ dims_ok (i_dims I) = true /\
+    (forall x v, i_b I x = Some v -> 0 <= x < i_total I /\ absb (s_d s) cs x = Some v).
+
+Lemma refines_init : refines i0 st0.
+Proof.
+  exists []. split; [apply inv_nil|]. repeat split; auto; try discriminate.
+Qed.
+
+Lemma Inv_dims h d cs dims : Inv h d cs -> Inv (mkHdr (h_ty h) dims (h_n h) (h_dc h)) d cs.
+Proof. unfold Inv. cbn [h_n h_ty h_dc]. tauto. Qed.
+
+Lemma lread_nth d cs a n (bs : list Z) : lread d cs a n = map Some bs -> lenZ bs = n ->
+  forall x, a <= x < a + n -> absb d cs x = Some (nth (Z.to_nat (x - a)) bs 0).
+Proof.
+  intros E L x Hx. unfold lread, zrange in E.
+  assert (Hn : forall k m (l : list Z), map (absb d cs) (zr m k) = map Some l -> forall i, (i < k)%nat -> absb d cs (m + Z.of_nat i) = Some (nth i l 0)).
+  { induction k as [|k IH]; intros m l El i Hi; [lia|]. destruct l as [|b r]; [discriminate|]. cbn [zr map] in El. inversion El as [[E0 E1]].
+    destruct i as [|i]; cbn [nth]; [rewrite Z.add_0_r; auto|]. replace (m + Z.of_nat (S i)) with (m + 1 + Z.of_nat i) by lia. apply IH; auto. lia. }
+  replace x with (a + Z.of_nat (Z.to_nat (x - a))) at 1 by lia. apply (Hn (Z.to_nat n) a bs E). lia.
+Qed.
+
+Lemma over_mono (f g : Z -> option Z) a l x v : (forall v, f x = Some v -> g x = Some v) -> over f a l x = Some v -> over g a l x = Some v.
+Proof. unfold over. destruct ((a <=? x) && (x <? a + lenZ l)); auto. Qed.
+
+Lemma over_elems_mono ps : forall (f g : Z -> option Z) fb data x v, (forall v, f x = Some v -> g x = Some v) ->
+  over_elems f ps fb data x = Some v -> over_elems g ps fb data x = Some v.
+Proof.
+  induction ps as [|p r IH]; intros f g fb data x v H E; cbn [over_elems] in *; auto.
+  eapply IH; [|exact E]. intros w. apply over_mono. exact H.
+Qed.
+
+Lemma over_elems_range ps : forall (f : Z -> option Z) fb data x v lo hi, 0 < fb ->
+  Forall (fun p => lo <= p * fb /\ p * fb + fb <= hi) ps ->
+  (forall v, f x = Some v -> lo <= x < hi) -> over_elems f ps fb data x = Some v -> lo <= x < hi.
+Proof.
+  induction ps as [|p r IH]; intros f fb data x v lo hi Hfb F H E; cbn [over_elems] in E; [eauto|].
+  inversion F as [|? ? [P1 P2] Fr]; subst. eapply IH; [exact Hfb|exact Fr| |exact E].
+  intros w. unfold over. pose proof (lenZ_firstn_le data (Z.to_nat fb)).
+  destruct (Z.leb_spec (p * fb) x), (Z.ltb_spec x (p * fb + lenZ (firstn (Z.to_nat fb) data))); cbn [andb]; eauto. intros _. lia.
+Qed.
+
+Lemma sel_positions_dims h h' sel : h_dims h = h_dims h' -> sel_positions h sel = sel_positions h' sel.
+Proof. intros E. unfold sel_positions. now rewrite E. Qed.
+
+Lemma st_eta s : mkSt (s_h s) (s_d s) = s.
+Proof. destruct s; reflexivity. Qed.
+
+Lemma total_eq I s : h_ty (s_h s) = i_ty I -> h_dims (s_h s) = i_dims I -> total_bytes (s_h s) = i_total I.
+Proof. intros E1 E2. unfold total_bytes, i_total. now rewrite E1, E2. Qed.
+
+Lemma andb3 a b c : a && b && c = true -> a = true /\ b = true /\ c = true.
+Proof. intros H. apply andb_true_iff in H. destruct H as [H ?]. apply andb_true_iff in H. tauto. Qed.
+
+(* ------------------------------------------------------------------ one step preserves the refinement *)
+Lemma step_putdims I s ty dims al : refines I s -> dims_ok dims = true ->
+  refines (istep I (PutDims ty dims)) (snd (step cf fa s (PutDims ty dims) al)).
+Proof.
+  intros (cs & I1 & Ety & Edims & En & Ecap & Dok & B) D. destruct (dims_ok_checks dims D) as [D1 D2].
+  cbn [step istep]. rewrite D1, D2. cbn [orb]. rewrite <- Ety, <- Edims.
+  pose proof (put_dims_ok (s_h s) (s_d s) cs ty dims I1 D) as P.
+  destruct (dtype_eqb (h_ty (s_h s)) ty && (lenZ dims =? lenZ (h_dims (s_h s)))).
+  - rewrite P. cbn [snd]. exists cs. cbn [s_h s_d h_ty h_dims i_ty i_dims i_n i_cap i_b].
+    split; [apply Inv_dims; exact I1|]. split; [reflexivity|]. split; [reflexivity|]. split; [exact En|]. split; [exact Ecap|].
+    split; [exact D|]. intros x v E. unfold restrict in E. unfold i_total. cbn [i_ty i_dims].
+    destruct (Z.ltb_spec x (esz (h_ty (s_h s)) * prodZ dims)); [|discriminate]. destruct (B x v E) as [R A]. split; [lia|exact A].
+  - destruct P as (d' & P). rewrite P. cbn [snd]. exists []. cbn [s_h s_d h_ty h_dims i_ty i_dims i_n i_cap i_b].
+    split; [apply inv_nil|]. repeat split; auto; try discriminate.
+Qed.
+
+Lemma step_writeall I s data al : refines I s -> safe_step cf fa s (WriteAll data) = true ->
+  alloc_ok fa s (WriteAll data) al = true -> buf_ok (s_h s) (WriteAll data) = true ->
+  refines (istep I (WriteAll data)) (snd (step cf fa s (WriteAll data) al)) /\
+  (i_total I <> 0 -> fst (step cf fa s (WriteAll data) al) = Ok AUnit /\ i_total I <= i_cap (istep I (WriteAll data))).
+Proof.
+  intros R0 Sf AO Bf. pose proof R0 as (cs & I1 & Ety & Edims & En & Ecap & Dok & B).
+  cbn [safe_step] in Sf. apply andb_true_iff in Sf. destruct Sf as [_ Nc]. unfold nchunks_ok in Nc.
+  destruct (Z.ltb_spec (h_n (s_h s)) 65535); [|discriminate].
+  cbn [buf_ok] in Bf. destruct (Z.leb_spec (total_bytes (s_h s)) (lenZ data)); [|discriminate].
+  pose proof (total_eq I s Ety Edims) as Et. cbn [step istep]. rewrite <- Et.
+  destruct (Z.eqb_spec (total_bytes (s_h s)) 0) as [T0|T0].
+  - split; [|intros; lia]. unfold write_all. rewrite T0. cbn [Z.eqb snd]. rewrite st_eta. exact R0.
+  - rewrite <- (st_eta s) in AO. rewrite <- Edims in Dok.
+    destruct (write_all_ok (s_h s) (s_d s) cs al data I1 Dok T0 ltac:(lia) ltac:(lia) AO) as (h' & d' & cs' & RW & I' & Ty' & Dm' & Ln & Cp & Rd).
+    rewrite RW. cbn [snd fst]. split.
+    + exists cs'. cbn [s_h s_d i_ty i_dims i_n i_cap i_b].
+      split; [exact I'|]. split; [congruence|]. split; [congruence|].
+      split; [rewrite Ln; unfold i_grow; rewrite <- En, <- Ecap; destruct (lenZ cs =? 0); [reflexivity|]; destruct (total_bytes (s_h s) >? cap_of cs); reflexivity|].
+      split; [rewrite Cp; unfold i_grow; rewrite <- En, <- Ecap; destruct ((lenZ cs =? 1) && (total_bytes (s_h s) <=? cap_of cs)); [reflexivity|];
+              destruct (lenZ cs =? 0); [reflexivity|]; destruct (total_bytes (s_h s) >? cap_of cs); reflexivity|].
+      split; [rewrite <- Edims; exact Dok|].
+      destruct (total_bounds (s_h s) Dok T0) as (_ & Tb & _).
+      assert (Lf : lenZ (firstn (Z.to_nat (total_bytes (s_h s))) data) = total_bytes (s_h s)) by (apply lenZ_firstn_ge; lia).
+      intros x v E. unfold i_total. cbn [i_ty i_dims]. fold (i_total I). rewrite <- Et.
+      unfold over in E. rewrite Lf in E. destruct (Z.leb_spec 0 x), (Z.ltb_spec x (0 + total_bytes (s_h s))); cbn [andb] in E.
+      * split; [lia|]. rewrite (lread_nth d' cs' 0 (total_bytes (s_h s)) _ Rd Lf x) by lia. exact E.
+      * destruct (B x v E) as [Rg _]. lia.
+      * destruct (B x v E) as [Rg _]. lia.
+      * destruct (B x v E) as [Rg _]. lia.
+    + intros _. split; [reflexivity|]. cbn [i_cap]. unfold i_grow. rewrite <- En, <- Ecap.
+      destruct (Z.eqb_spec (lenZ cs) 1), (Z.leb_spec (total_bytes (s_h s)) (cap_of cs)); cbn [andb]; try lia;
+      destruct (Z.eqb_spec (lenZ cs) 0); cbn [snd]; try lia; destruct (Z.gtb_spec (total_bytes (s_h s)) (cap_of cs)); cbn [snd]; lia.
+Qed.
+
+Lemma grow_len I cs t : lenZ cs = i_n I -> cap_of cs = i_cap I ->
+  (if lenZ cs =? 0 then 1 else if t >? cap_of cs then lenZ cs + 1 else lenZ cs) = fst (i_grow I t) /\
+  (if lenZ cs =? 0 then t else if t >? cap_of cs then t else cap_of cs) = snd (i_grow I t).
+Proof.
+  intros En Ecap. unfold i_grow. rewrite <- En, <- Ecap. destruct (lenZ cs =? 0); [auto|]. destruct (t >? cap_of cs); auto.
+Qed.
+
+Lemma step_writeblock I s b e data al : refines I s -> safe_step cf fa s (WriteBlock b e data) = true ->
+  alloc_ok fa s (WriteBlock b e data) al = true -> buf_ok (s_h s) (WriteBlock b e data) = true ->
+  refines (istep I (WriteBlock b e data)) (snd (step cf fa s (WriteBlock b e data) al)) /\
+  (block_valid I b e = true -> fst (step cf fa s (WriteBlock b e data) al) = Ok AUnit /\ i_total I <= i_cap (istep I (WriteBlock b e data))).
+Proof.
+  intros R0 Sf AO Bf. pose proof R0 as (cs & I1 & Ety & Edims & En & Ecap & Dok & B).
+  cbn [safe_step] in Sf. apply andb3 in Sf. destruct Sf as (_ & Nc & Ne). unfold nchunks_ok in Nc.
+  destruct (Z.ltb_spec (h_n (s_h s)) 65535); [|discriminate].
+  cbn [buf_ok] in Bf. pose proof (total_eq I s Ety Edims) as Et. cbn [step istep]. unfold block_valid. rewrite <- Et, <- Ety.
+  set (fb := esz (h_ty (s_h s))) in *. set (sb := fb * (b - 1)) in *. set (eb := fb * e) in *. set (t := total_bytes (s_h s)) in *.
+  destruct (Z.leb_spec (eb - sb) (lenZ data)); [|discriminate]. destruct (Z.eqb_spec sb eb) as [|Nempty]; [discriminate|].
+  destruct (Z.eqb_spec t 0) as [T0|T0].
+  { cbn [negb andb]. split; [|intros; discriminate]. unfold write_block. fold t. rewrite T0. cbn [Z.eqb snd]. rewrite st_eta. exact R0. }
+  cbn [negb andb].
+  destruct (Z.leb_spec 0 sb) as [S0|S0]; cbn [andb].
+  2:{ split; [|intros; discriminate]. unfold write_block. fold t fb sb eb. destruct (Z.eqb_spec t 0); [lia|].
+      destruct (Z.ltb_spec sb 0); [|lia]. cbn [orb snd]. rewrite st_eta. exact R0. }
+  destruct (Z.ltb_spec sb eb) as [S1|S1]; cbn [andb].
+  2:{ split; [|intros; discriminate]. unfold write_block. fold t fb sb eb. destruct (Z.eqb_spec t 0); [lia|].
+      destruct (Z.ltb_spec sb 0); [lia|]. destruct (Z.gtb_spec sb eb); [|lia]. cbn [orb snd]. rewrite st_eta. exact R0. }
+  destruct (Z.leb_spec eb t) as [S2|S2]; cbn [negb].
+  2:{ split; [|intros; discriminate]. unfold write_block. fold t fb sb eb. destruct (Z.eqb_spec t 0); [lia|].
+      destruct (Z.ltb_spec sb 0); [lia|]. destruct (Z.gtb_spec sb eb); [lia|]. destruct (Z.gtb_spec eb t); [|lia]. cbn [orb snd]. rewrite st_eta. exact R0. }
+  rewrite <- (st_eta s) in AO. rewrite <- Edims in Dok.
+  destruct (write_block_ok (s_h s) (s_d s) cs al b e data I1 Dok T0 S0 S1 S2 ltac:(fold fb sb eb; lia) ltac:(lia) AO) as (h' & d' & cs' & RW & I' & Ty' & Dm' & Ln & Cp & Rd).
+  rewrite RW. cbn [snd fst]. fold fb sb eb t in Ln, Cp, Rd. destruct (grow_len I cs t En Ecap) as [G1 G2]. split.
+  - exists cs'. cbn [s_h s_d i_ty i_dims i_n i_cap i_b].
+    split; [exact I'|]. split; [congruence|]. split; [congruence|]. split; [rewrite Ln; exact G1|]. split; [rewrite Cp; exact G2|].
+    split; [rewrite <- Edims; exact Dok|].
+    assert (Lf : lenZ (firstn (Z.to_nat (eb - sb)) data) = eb - sb) by (apply lenZ_firstn_ge; lia).
+    intros x v E. unfold i_total. cbn [i_ty i_dims]. fold (i_total I). rewrite <- Et. fold t.
+    assert (Rg : 0 <= x < t).
+    { unfold over in E. rewrite Lf in E. destruct (Z.leb_spec sb x), (Z.ltb_spec x (sb + (eb - sb))); cbn [andb] in E; try lia;
+      destruct (B x v E) as [Rg _]; rewrite <- Et in Rg; fold t in Rg; lia. }
+    split; [exact Rg|]. apply Rd; [lia|]. eapply over_mono; [|exact E]. intros w Ew. apply (B x w Ew).
+  - intros _. split; [reflexivity|]. cbn [i_cap]. rewrite <- G2.
+    destruct (Z.eqb_spec (lenZ cs) 0); [lia|]. destruct (Z.gtb_spec t (cap_of cs)); lia.
+Qed.
+
+Lemma step_writestrided I s sel data al : refines I s -> safe_step cf fa s (WriteStrided sel data) = true ->
+  alloc_ok fa s (WriteStrided sel data) al = true ->
+  refines (istep I (WriteStrided sel data)) (snd (step cf fa s (WriteStrided sel data) al)) /\
+  (forall ps, esz (i_ty I) <> 0 -> lenZ (i_dims I) <> 0 -> sel_positions (i_hdr I) sel = Ok ps -> lenZ data = lenZ ps * esz (i_ty I) ->
+     fst (step cf fa s (WriteStrided sel data) al) = Ok AUnit /\ i_total I <= i_cap (istep I (WriteStrided sel data))).
+Proof.
+  intros R0 Sf AO. pose proof R0 as (cs & I1 & Ety & Edims & En & Ecap & Dok & B).
+  cbn [safe_step] in Sf. unfold nchunks_ok in Sf. destruct (Z.ltb_spec (h_n (s_h s)) 65535); [|discriminate].
+  pose proof (total_eq I s Ety Edims) as Et. cbn [step istep]. rewrite <- Ety, <- Edims.
+  rewrite (sel_positions_dims (i_hdr I) (s_h s) sel) by (cbn [i_hdr h_dims]; congruence).
+  set (fb := esz (h_ty (s_h s))) in *.
+  assert (Unch : forall r d', write_strided cf fa (s_h s) (s_d s) al sel data = (r, d') -> d' = s_d s -> (forall h', r <> Ok h') ->
+                 refines I (snd (match r with Ok h' => (Ok AUnit, mkSt h' d') | e => (@cast hdr ans e, mkSt (s_h s) d') end))).
+  { intros r d' _ -> Hr. destruct r; try (exfalso; eapply Hr; reflexivity); cbn [snd]; rewrite st_eta; exact R0. }
+  destruct (Z.eqb_spec fb 0) as [F0|F0].
+  { cbn [orb]. split; [|intros; congruence]. unfold write_strided. fold fb. rewrite F0. cbn [Z.eqb orb snd]. rewrite st_eta. exact R0. }
+  destruct (Z.eqb_spec (lenZ (h_dims (s_h s))) 0) as [K0|K0].
+  { cbn [orb]. split; [|intros; congruence]. unfold write_strided. fold fb. destruct (Z.eqb_spec fb 0); [lia|]. rewrite K0. cbn [Z.eqb orb snd]. rewrite st_eta. exact R0. }
+  cbn [orb].
+  destruct (sel_positions (s_h s) sel) as [ps| | | | | | | | |] eqn:SP;
+    try (split; [|intros; congruence]; unfold write_strided; fold fb; destruct (Z.eqb_spec fb 0); [lia|];
+         destruct (Z.eqb_spec (lenZ (h_dims (s_h s))) 0); [lia|]; cbn [orb]; rewrite SP; cbn [bindO cast snd]; rewrite st_eta; exact R0).
+  destruct (Z.eqb_spec (lenZ data) (lenZ ps * fb)) as [Ld|Ld]; cbn [negb].
+  2:{ split; [|intros ps' _ _ E1 E2; inversion E1; subst; lia].
+      unfold write_strided. fold fb. destruct (Z.eqb_spec fb 0); [lia|].
+      destruct (Z.eqb_spec (lenZ (h_dims (s_h s))) 0); [lia|]. cbn [orb]. rewrite SP. cbn [bindO].
+      destruct (Z.eqb_spec (lenZ data) (lenZ ps * fb)); [lia|]. cbn [negb snd]. rewrite st_eta. exact R0. }
+  rewrite <- Edims in Dok.
+  assert (T0 : total_bytes (s_h s) <> 0).
+  { rewrite total_bytes_unfold. fold fb. unfold dims_ok in Dok. apply andb3 in Dok. destruct Dok as (_ & D2 & _).
+    pose proof (prodZ_dims_pos _ D2). assert (0 <= fb) by (unfold fb; destruct (h_ty (s_h s)); cbn; lia). nia. }
+  rewrite <- (st_eta s) in AO.
+  destruct (write_strided_ok (s_h s) (s_d s) cs al sel ps data I1 Dok T0 K0 SP Ld ltac:(lia) AO) as (h' & d' & cs' & RW & I' & Ty' & Dm' & Ln & Cp & Rd).
+  rewrite RW. cbn [snd fst]. set (t := total_bytes (s_h s)) in *. destruct (grow_len I cs t En Ecap) as [G1 G2].
+  destruct (total_bounds (s_h s) Dok T0) as (Z0 & Tb & _). fold fb t in Z0, Tb.
+  destruct (sel_positions_facts _ _ _ Dok SP) as [Srt Rng].
+  assert (Pc : 0 <= cap_of cs) by (destruct I1 as (_ & C & _); apply sizes_pos_cap, (Forall_chunk_sizes (s_d s)); auto).
+  split.
+  - exists cs'. cbn [s_h s_d i_ty i_dims i_n i_cap i_b].
+    split; [exact I'|]. split; [congruence|]. split; [congruence|]. split; [rewrite Ln; rewrite <- Et; exact G1|]. split; [rewrite Cp; rewrite <- Et; exact G2|].
+    split; [rewrite <- Edims; exact Dok|].
+    intros x v E. unfold i_total. cbn [i_ty i_dims]. fold (i_total I). rewrite <- Et. fold t. rewrite <- Et in E. fold t in E.
+    set (z := if i_n I =? 0 then over (i_b I) 0 (zeros t) else if t >? i_cap I then over (i_b I) (i_cap I) (zeros (t - i_cap I)) else i_b I) in *.
+    assert (Zr : forall w, z x = Some w -> 0 <= x < t).
+    { intros w. unfold z. rewrite <- En, <- Ecap.
+      destruct (Z.eqb_spec (lenZ cs) 0); [|destruct (Z.gtb_spec t (cap_of cs))]; unfold over; try rewrite lenZ_zeros by lia;
+      repeat match goal with |- context [Z.leb ?u ?v] => destruct (Z.leb_spec u v) end;
+      repeat match goal with |- context [Z.ltb ?u ?v] => destruct (Z.ltb_spec u v) end; cbn [andb]; intros Ew; try lia;
+      destruct (B x w Ew) as [Rg _]; rewrite <- Et in Rg; fold t in Rg; lia. }
+    assert (Rg : 0 <= x < t).
+    { eapply (over_elems_range ps z fb data x v 0 t Z0); [|exact Zr|exact E].
+      eapply Forall_impl; [|exact Rng]. intros p Hp. cbn beta in Hp. rewrite total_bytes_unfold in Tb. fold fb in Tb. unfold t. rewrite total_bytes_unfold. fold fb. nia. }
+    split; [exact Rg|]. rewrite Rd by lia. eapply over_elems_mono; [|exact E].
+    intros w. unfold z. rewrite <- En, <- Ecap.
+    destruct (Z.eqb_spec (lenZ cs) 0) as [L0|L0]; cbn [orb].
+    + assert (cs = []) by (apply lenZ_0_nil; auto). subst cs. cbn [cap_of fold_right]. rewrite Z.sub_0_r.
+      apply over_mono. intros u Eu. apply (B x u Eu).
+    + destruct (Z.gtb_spec t (cap_of cs)).
+      * apply over_mono. intros u Eu. apply (B x u Eu).
+      * intros Ew. apply (B x w Ew).
+  - intros ps' _ _ _ _. split; [reflexivity|]. cbn [i_cap]. rewrite <- Et. fold t. rewrite <- G2.
+    destruct (Z.eqb_spec (lenZ cs) 0); [lia|]. destruct (Z.gtb_spec t (cap_of cs)); lia.
 Qed.
